@@ -56,6 +56,8 @@ class TaskThread:
         self.priority = 0
         self.thread = None
         self.group_counts = [0] * len(GROUPS)
+        self.first_sites = [[] for _ in GROUPS]   # per group: the own group-step numbers at which a NEW file:line was reached
+        self._seen_sites = [set() for _ in GROUPS]
 
 
 class SimLock:
@@ -227,6 +229,10 @@ class Scheduler:
                 if b & 1:
                     gc_[i] += 1
                     tg_[i] += 1
+                    site_ = (rel, frame.f_lineno)
+                    if site_ not in t._seen_sites[i]:
+                        t._seen_sites[i].add(site_)
+                        t.first_sites[i].append(tg_[i])
                 b >>= 1
                 i += 1
         if is_shared:
